@@ -114,6 +114,8 @@ def _is_equal(a: Any, b: Any) -> bool | None:  # noqa: PLR0911
     if isinstance(a, set):
         return a == b
     if isinstance(a, float | np.floating):
+        if math.isnan(a) and math.isnan(b):
+            return True  # consistent with `equal_nan=True` for arrays
         return math.isclose(a, b, rel_tol=1e-9, abs_tol=0.0)
     if isinstance(a, str):
         return a == b
